@@ -623,6 +623,50 @@ def target_call_path_cases():
     return out
 
 
+def path_slice_cases():
+    """Exec.path_slice: the state variables handed to Path.slice are the variables of the balance, of every symbolic code
+    chunk of EVERY account and of every stored value of EVERY account (the state id and the successor's solver are built from
+    the constraints related to them)"""
+    from contracts.common import replay_script
+    from halmos.bytevec import ByteVec
+
+    out = []
+
+    def harness(interp):
+        ctx = interp.ctx
+        b, c1, c2, s1, s2, s3, t1 = z3.BitVecs("bal_v code_v1 code_v2 st_v1 st_v2 st_v3 tr_v1", 256)
+        a1, a2, a3 = z3.BitVecVal(0xA1, 160), z3.BitVecVal(0xA2, 160), z3.BitVecVal(0xA3, 160)
+        arr = z3.Store(z3.K(z3.BitVecSort(160), z3.BitVecVal(0, 256)), a1, b)
+
+        def vars_of(t):
+            seen, todo, out_ = set(), [t], set()
+            while todo:
+                e = todo.pop()
+                if e.get_id() in seen:
+                    continue
+                seen.add(e.get_id())
+                if z3.is_const(e) and e.decl().kind() == z3.Z3_OP_UNINTERPRETED:
+                    out_.add(e)
+                todo.extend(e.children())
+            return out_
+
+        got = []
+        path = NS(get_var_set=lambda t: vars_of(t), slice=lambda vs: got.append(set(vs)))
+        code = {a1: NS(_code=ByteVec([b"\x60\x00", z3.Extract(15, 0, c1)])), a2: NS(_code=ByteVec(b"\x00")), a3: NS(_code=ByteVec([z3.Extract(7, 0, c2)]))}
+        storage = {a1: NS(_mapping={(0, 0, 0): s1}), a2: NS(_mapping={(0, 0, 0): s2 + 1, (1, 0, 0): z3.BitVecVal(7, 256)}), a3: NS(_mapping={(5, 1, 0): z3.Store(z3.K(z3.BitVecSort(256), z3.BitVecVal(0, 256)), z3.BitVecVal(1, 256), s3)})}
+        for this in (a1, a2, a3):
+            got.clear()
+            ex = NS(balance=arr, code=code, storage=storage, transient_storage={a1: NS(_mapping={(0, 0, 0): t1})}, path=path, this=lambda this=this: this)
+            interp.call(hs.Exec.__dict__["path_slice"], [ex], {})
+            want = {b, c1, c2, s1, s2, s3}
+            ctx.oblige("path_slice: Path.slice is called once", z3.BoolVal(len(got) == 1))
+            if len(got) == 1:
+                ctx.oblige("path_slice: the state variables are those of the balance, of the symbolic code of every account and of the stored values of every account, whichever account ran last", z3.BoolVal(set(got[0]) >= want), info={"missing": [str(v) for v in want - set(got[0])]})
+
+    out.append(Case(f"{PROP}/sevm.Exec.path_slice", "three accounts: symbolic code in two, storage in three, balance", harness, replay=replay_script("slice_other_account.py", "two target contracts, A reads B's storage: call sequences B.set(x); A.sync()"), sources=("halmos.sevm:Exec.path_slice",)))
+    return out
+
+
 def build_cases(tier="quick"):
     from contracts import c20
 
@@ -631,7 +675,7 @@ def build_cases(tier="quick"):
 
     ref += [Case(f"{PROP}/sevm.SEVM.run_message#own-block", c.case, c.harness, replay=c.replay, sources=c.sources) for c in c20.fork_cases() if c.unit.endswith("sevm.SEVM.run_message")]
     ref += [Case(f"{PROP}/sevm.Path.extend_path#successor-owns-its-conditions", c.case, c.harness, replay=c.replay, sources=c.sources) for c in c11.path_growth_cases() if "extend_path" in c.unit]
-    return sender_cases() + frontier_cases() + digest_cases() + slice_cases() + target_call_path_cases() + ref
+    return path_slice_cases() + sender_cases() + frontier_cases() + digest_cases() + slice_cases() + target_call_path_cases() + ref
 
 
 def grounds():
